@@ -1,4 +1,5 @@
 """C09 ZBDD set-family operations: wiring"""
+import eeval
 import eshort
 import ecache
 import ereduce
@@ -46,4 +47,12 @@ def run(ctx):
                 "(don't-care; zero-suppressed for ZBDDs); level_swap splits children below the lower level through it.")
     n = eskip.run(ctx, F)
     ctx.floor("E-TABLE.skip", "interpreted skipped-cofactor cases", n, 20)
+    ctx.explain("E-EVAL: eval_edge is interpreted in two single steps -- one iteration of the argument loop (the entry of "
+                "var_to_level(var) ends up holding an encoding of the value that does not depend on its previous content: "
+                "the value given last counts; other entries untouched; ZBDD: the counter of true variables is kept exact) and "
+                "one call of `inner` (recurses once into the child for the stored value -- true: first, false: last, "
+                "unknown: middle -- with the same table; complement flag / counter handed down correctly; terminals "
+                "yield their value), plus the initial call and the multi-threaded delegation.")
+    n = eeval.run(ctx, F, only=("zbdd",))
+    ctx.floor("E-EVAL", "interpreted eval situations", n, 12)
     ctx.not_decided = "make_node, the tautology cache itself, consistency after add_vars beyond the cache events"
